@@ -33,6 +33,9 @@ pub enum Op {
     /// the node's only worker thread is blocked for `ms`: a silent peer (sockets stay open, nothing is answered; substream
     /// opens towards it run into the 1.5 s open timeout)
     Freeze { node: u8, ms: u16 },
+    /// the stream is open; node `closer` closes it and the other node's user asks for it again the moment it is told
+    /// that the stream closed: that request must be answered
+    InstantReopen { closer: u8 },
     /// quiet pause, then a clean open that must be answered
     /// open a stream to a connected peer that does not run the notification protocol at all: exactly one open-failure
     OpenToBare { node: u8 },
@@ -75,6 +78,7 @@ fn strategy() -> impl Strategy<Value = Case> {
         4 => Just(Op::Reconnect),
         5 => prop_oneof![Just(0u16), Just(3), Just(20), Just(120)].prop_map(|ms| Op::Sleep { ms }),
         1 => (node.clone(), prop_oneof![Just(150u16), Just(1800)]).prop_map(|(node, ms)| Op::Freeze { node, ms }),
+        2 => node.clone().prop_map(|closer| Op::InstantReopen { closer }),
         2 => (node, prop::option::weighted(0.4, (0u8..2, prop_oneof![Just(0u8), Just(1), Just(3), Just(10), Just(30)]))).prop_map(|(node, cut)| Op::CleanOpen { node, cut, one_sided: false, late_answer: None }),
     ];
     (
@@ -345,6 +349,7 @@ fn run_case_with(c: &Case, avoid_reject: bool) -> CaseResult {
     let mut frozen_until: [Option<Instant>; 2] = [None, None];
     let mut froze_during_negotiation = false;
     let mut late_validation = false;
+    let mut instant_reopen = false;
     let wait_thaw = |f: &[Option<Instant>; 2]| {
         if let Some(u) = f.iter().flatten().max() {
             std::thread::sleep(u.saturating_duration_since(Instant::now()));
@@ -442,6 +447,71 @@ fn run_case_with(c: &Case, avoid_reject: bool) -> CaseResult {
                 nodes[n].send(Cmd::Freeze(Duration::from_millis(*ms as u64)));
                 frozen_until[n] = Some(Instant::now() + Duration::from_millis(*ms as u64 + 40));
                 std::thread::sleep(Duration::from_millis(3));
+            }
+            Op::InstantReopen { closer } => {
+                let n = *closer as usize % 2;
+                let v = 1 - n;
+                if policy[0] != 0 || policy[1] != 0 || c.auto_accept[0] || c.auto_accept[1] {
+                    continue;
+                }
+                wait_thaw(&frozen_until);
+                connect(&nodes, &log)?;
+                let open_on = |l: &[Obs], node: usize, peer: &PeerId| {
+                    let mut open = false;
+                    for o in l.iter().filter(|o| o.node == node) {
+                        match &o.kind {
+                            ObsKind::NotifOpened { peer: p, .. } if p == peer => open = true,
+                            ObsKind::NotifClosed { peer: p } if p == peer => open = false,
+                            _ => {}
+                        }
+                    }
+                    open
+                };
+                let (pn, pv) = (peers[n], peers[v]);
+                if !(open_on(&log.lock(), n, &pv) && open_on(&log.lock(), v, &pn)) {
+                    // get the stream open first (bounded; otherwise skip)
+                    let start = Instant::now();
+                    let mut clean = false;
+                    while start.elapsed() < Duration::from_millis(1200) {
+                        if pair_is_clean(&log.lock(), &peers, Duration::from_millis(300), None) {
+                            clean = true;
+                            break;
+                        }
+                        std::thread::sleep(Duration::from_millis(20));
+                    }
+                    if !clean {
+                        continue;
+                    }
+                    nodes[n].send(Cmd::NotifOpen(pv));
+                    if !wait_until(&log, Duration::from_millis(3000), |l| open_on(l, n, &pv) && open_on(l, v, &pn)) {
+                        continue;
+                    }
+                    std::thread::sleep(Duration::from_millis(30));
+                }
+                nodes[v].send(Cmd::NotifReopenOnClosed(true));
+                std::thread::sleep(Duration::from_millis(5));
+                let mark = log.lock().len();
+                nodes[n].send(Cmd::NotifClose(pv));
+                // the other node is told, and its user asks again at once
+                let asked = wait_until(&log, Duration::from_millis(3000), |l| l[mark.min(l.len())..].iter().any(|o| o.node == v && matches!(&o.kind, ObsKind::NotifApi { what, ok: true } if what.starts_with("open"))));
+                if asked {
+                    instant_reopen = true;
+                    let answered = wait_until(&log, Duration::from_secs(13), |l| {
+                        l[mark.min(l.len())..].iter().any(|o| o.node == v && matches!(&o.kind, ObsKind::NotifOpened { peer, .. } | ObsKind::NotifOpenFailure { peer, .. } if *peer == pn))
+                    });
+                    nodes[v].send(Cmd::NotifReopenOnClosed(false));
+                    if !answered {
+                        let l = log.lock();
+                        fail!(
+                            "C11/clean-open-request-never-answered",
+                            "node {n} closed the open stream; node {v}'s user asked for it again the moment it was told (nothing else in progress) and got neither opened nor open-failure within 13 s; events since the close: {:?}",
+                            l[mark.min(l.len())..].iter().filter(|o| o.node < 2).map(|o| format!("{}:{}", o.node, short(&o.kind))).collect::<Vec<_>>()
+                        );
+                    }
+                } else {
+                    nodes[v].send(Cmd::NotifReopenOnClosed(false));
+                }
+                std::thread::sleep(Duration::from_millis(30));
             }
             Op::OpenToBare { node } => {
                 wait_thaw(&frozen_until);
@@ -654,6 +724,8 @@ fn run_case_with(c: &Case, avoid_reject: bool) -> CaseResult {
         .class_if(froze_during_negotiation, "peer-silent-during-negotiation")
         .nt(late_validation)
         .class_if(late_validation, "own-validation-answered-after-the-remote-gave-up")
+        .nt(instant_reopen)
+        .class_if(instant_reopen, "reopen-requested-the-moment-the-stream-closed")
         .class_if(simultaneous, "simultaneous-opens")
         .class_if(disconnect_during_validation, "disconnect-during-validation")
         .class_if(reject_then_reopen, "reject-then-reopen")
